@@ -528,6 +528,10 @@ def _stmt_worker(args):
         it = iter(extra_statements())
     elif depth == 1:
         it = iter(atoms)
+    elif depth == 3:
+        it = stmts.skeleton_structures()
+    elif depth == 5:
+        it = stmts.skeleton_flags()
     else:
         it = stmts.depth2(atoms)
     bad = []
@@ -893,7 +897,9 @@ def run(tier):
         # ---- 1b statements
         stmt_stats = {"programs": 0, "paths": 0, "rejected": 0}
         stmt_bad = []
-        for depth, stride in [(0, 1), (1, 1), (2, 6 if tier == "quick" else 1)]:
+        # 3 = control-structure skeletons (every nesting of block / if / if-else / else-only up to 4 leaves);
+        # 5 = the flag-decorated skeletons (thorough: the back ends do not interpret flags)
+        for depth, stride in [(0, 1), (1, 1), (2, 6 if tier == "quick" else 1), (3, 1)] + ([(5, 1)] if tier != "quick" else []):
             for st, bad in pool.imap_unordered(_stmt_worker, [(s, procs, depth, stride, seed) for s in range(procs)]):
                 for k in stmt_stats:
                     stmt_stats[k] += st[k]
